@@ -18,6 +18,10 @@ sources (also a set handed to a function that iterates over the parameter receiv
 cases with several loads that one process performs one after the other and whose lists of variable files share
 files; every process performs them in its own order, each load first in one of them.
 
+ONE configuration object that is constructed and then RE-PARAMETRIZED (cfg cases: in-memory FlowIR, FlowIR file, DSL 2.0,
+DOSINI) must answer every call like a fresh load (Det.Reparam), and a DOSINI INSTANCE directory (both flavours of the
+stage files) must load the same under every directory listing order (inst cases) - see c15_reuse.py.
+
 "Every process" is represented by: 6 processes (hash seeds 0,1,2,3,random,4; six key orders of every
 document; six creation orders of every file set) on the implementation side, and by "every permutation
 oracle at the modelled sites" on the Coq side."""
@@ -32,6 +36,7 @@ import tempfile
 
 import common
 from common import clist, cstr, cpair, cjv, copt
+import c15_reuse as R
 
 PROP = 'C15'
 COQ_DIR = 'Det'
@@ -59,8 +64,14 @@ ASSUMPTIONS = [
     '`.` as wildcard) and the construction of translation_map are not modelled; the harness recomputes the replica '
     'references in document order with the real compile_reference and takes the replicated producers from the real '
     'propagate_replicate; two producers that share a relative spelling are outside the model',
-    'directory listing order is varied through the creation order of the files (tmpfs/ext4 list in an order that '
-    'depends on it), not controlled directly',
+    'directory listing order: process v of the 6 sees os.listdir / os.scandir (hence glob, os.walk, shutil.copytree) / '
+    'glob.glob report the entries in its own order (as the file system lists them, ascending, descending, rotated, '
+    'even-then-odd, odd-then-even reversed) and the files are created in 6 different orders; a listing obtained in '
+    'another way (a subprocess running ls/find) is not controlled',
+    'ONE configuration object re-parametrized (Det.Reparam): the object is modelled as (pristine FlowIR, current); '
+    'the pristine per-platform stage variables are taken from a load of the package without variable files; the '
+    'DSL 2.0 front-end (entrypoint substitution at construction, open finding F15c) is outside Det.Reparam and '
+    'compared between processes only; CWL packages are not generated (need cwltool)',
 ]
 HEADER = 'Require Import V.Lib.JTree V.Det.Model.\nOpen Scope string_scope.'
 SEEDS = ['0', '1', '2', '3', 'random', '4']
@@ -442,6 +453,18 @@ def variant_of(rng, case, v):
         for ld in c['loads']:
             if ld.get('override'):
                 ld['override'] = {k: to_transport(permute_keys(rng, d) if v > 0 else d) for k, d in ld['override'].items()}
+    if 'calls' in c:
+        # ONE configuration object: process v constructs it with the options of call v mod n (a fresh load of that
+        # call) and re-parametrizes it with the others in its own order
+        n = len(c['calls'])
+        lo = list(range(n))
+        if v > 0:
+            first = v % n
+            rest = [i for i in lo if i != first]
+            rng.shuffle(rest)
+            lo = [first] + rest
+        c['call_order'] = lo
+    c.pop('flowir_of_dosini', None)
     for key in ('flowir', 'doc'):
         if key in c:
             c[key] = to_transport(c[key])
@@ -502,9 +525,12 @@ def first_diff(a, b, path=''):
 
 
 def short_case(case):
-    c = {k: case[k] for k in ('kind', 'given', 'platform', 'nstages', 'family') if k in case}
+    c = {k: case[k] for k in ('kind', 'given', 'platform', 'nstages', 'family', 'calls', 'platforms') if k in case}
     c['vfiles'] = {n: to_transport(d) for n, d in case['vfiles'].items()}
-    c['flowir' if 'flowir' in case else 'doc'] = to_transport(case.get('flowir') or case.get('doc'))
+    if 'flowir' in case or 'doc' in case:
+        c['flowir' if 'flowir' in case else 'doc'] = to_transport(case.get('flowir') or case.get('doc'))
+    if 'flowir_of_dosini' in case:
+        c['flowir_of_dosini'] = to_transport(case['flowir_of_dosini'])
     if 'files' in case:
         c['files'] = case['files']
         c['inputs'] = case['inputs']
@@ -536,7 +562,8 @@ def compare_processes(ctx, cases, outs):
                 where = first_diff(p0, pv)
                 what = 'canonical dump differs between processes at %s' % _generalise(where)
                 ctx.fail({'case': short_case(case), 'seed_a': SEEDS[0], 'seed_b': SEEDS[v], 'where': where,
-                          'a': _at(p0, where), 'b': _at(pv, where)}, what, [])
+                          'process_a': 0, 'process_b': v, 'a': _at(p0, where), 'b': _at(pv, where)}, what,
+                         R.classes_of(case))
                 break
     return parsed0
 
@@ -732,6 +759,124 @@ def check_pkgs(ctx, cases, parsed, ref_terms):
         ctx.sample({'format': case['format'], 'names': dump['names'], 'edges': dump['edges'][:6],
                     'hashes': {k: (v[0] if isinstance(v, list) else v) for k, v in list(dump['memoization'].items())[:3]}},
                    limit=6)
+
+
+# ------------------------------------------------------------------ ONE object re-parametrized / DOSINI instances
+HEADER_REPARAM = HEADER + '\nRequire Import V.Det.Reparam.'
+
+
+def _stage_table(d):
+    return clist(sorted((d or {}).items(), key=lambda kv: int(kv[0])), lambda kv: cpair(cstr(kv[0]), cjv(kv[1])))
+
+
+def check_cfgs(ctx, pairs):
+    terms, tcases = [], []
+    for case, dump in pairs:
+        sc = short_case(case)
+        classes = R.classes_of(case)
+        calls = case['calls']
+        ctx.count('reparam:%s' % case['format'])
+        ctx.count('reparam:calls', len(calls))
+        ctx.count('reparam:calls_without_variable_files', sum(1 for c in calls if not c['given']))
+        ctx.count('reparam:platform_changes', sum(1 for a, b in zip(calls, calls[1:]) if a['platform'] != b['platform']))
+        if classes:
+            ctx.count('reparam:in_class_of_open_finding_F15c')
+        differing = len(set(json.dumps([c['given'], c['platform']]) for c in calls))
+        ctx.case(['cfg', case['format'], case.get('flowir') or case.get('doc') or case.get('files'), case['vfiles'], calls],
+                 differing >= 2)
+        ok = True
+        for i, (call, r) in enumerate(zip(calls, dump['calls'])):
+            pseudo = {'vfiles': case['vfiles'], 'given': call['given']}
+            if 'error' in r:
+                ok = False
+                ctx.fail({'case': sc, 'call': i, 'error': r['error']},
+                         'a configuration object raised when it was (re-)parametrized with valid options', classes)
+                continue
+            if r['layered'] != dedup_last(call['given']):
+                ctx.disagree({'case': sc, 'call': i}, r['layered'], dedup_last(call['given']),
+                             'C15 S1: files layered by a re-parametrized object vs Det.Model.dedup_last')
+            for p_ in leaf_paths(pseudo):
+                found, want = last_def(pseudo, p_)
+                got = get_path(r['uv'], p_)
+                if got != want or type(got) != type(want):
+                    ctx.fail({'case': sc, 'call': i, 'variable': list(p_), 'got': got, 'last_file_gives': want},
+                             'a user variable does not have the value of the last file given that defines it', classes)
+                    break
+            if case['format'] != 'dsl':
+                for cname, conf in r['components'].items():
+                    if not isinstance(conf, dict):
+                        continue
+                    for name in NAMES:
+                        f1, v1 = last_def(pseudo, ('stages', str(conf['stage']), name))
+                        f2, v2 = last_def(pseudo, ('global', name))
+                        if (f1 or f2) and conf['variables'].get(name) != (v1 if f1 else v2):
+                            ctx.fail({'case': sc, 'call': i, 'component': cname, 'variable': name,
+                                      'got': conf['variables'].get(name), 'want': v1 if f1 else v2},
+                                     'the resolved configuration of a component does not use the last-wins user variable',
+                                     classes)
+                            break
+        if ok and not classes:
+            plats = sorted(set(c['platform'] or 'default' for c in calls))
+            pristine = {}
+            for call, r in zip(calls, dump['calls']):
+                pristine[call['platform'] or 'default'] = r['stage_vars_before']
+            tbl = clist(sorted(case['vfiles'].items()), lambda kv: cpair(cstr(kv[0]), cjv(kv[1])))
+            pkg = clist(plats, lambda pl: cpair(cstr(pl), _stage_table(pristine[pl])))
+            cl = clist(calls, lambda c: cpair(clist(c['given'], cstr), cstr(c['platform'] or 'default')))
+            impl = clist(dump['calls'], lambda r: cpair(copt(r['uv'], cjv), _stage_table(r['stage_vars'])))
+            terms.append(cpair(cpair(cpair(tbl, pkg), cl), impl))
+            tcases.append({'case': sc, 'impl_answers': [{'uv': r['uv'], 'stage_vars': r['stage_vars']} for r in dump['calls']]})
+    bad = ctx.model_mismatches(HEADER_REPARAM, terms, 'check_reparam', chunk=40, name='reparam')
+    for i in bad:
+        ctx.disagree(tcases[i], tcases[i]['impl_answers'], 'Det.Reparam.answers id/rev',
+                     'C15: answers of ONE re-parametrized configuration object vs Det.Reparam.answers')
+
+
+def _essence(d):
+    """what a loaded configuration serves, without what legitimately names the directory it was read from"""
+    return {k: d.get(k) for k in ('error', 'uv', 'platform', 'stage_vars', 'stage_vars_every_platform', 'global',
+                                  'environments', 'components')}
+
+
+def check_insts(ctx, pairs):
+    for case, dump in pairs:
+        sc = short_case(case)
+        ctx.count('dosini_instance')
+        if 'error' in dump:
+            ctx.count('dosini_instance:not_instantiated:' + dump['error'])
+            ctx.case(['inst', case['files'], case['vfiles'], case['given'], case['platform']], False)
+            continue
+        both = [f for f in dump['stage_files'] if f.endswith('.instance.conf')
+                and f.replace('.instance.conf', '.conf') in dump['stage_files']]
+        ctx.count('dosini_instance:stages_with_both_flavours', len(both))
+        pk, pf, inst = dump['package'], dump['package_flavour_of_instance'], dump['instance_flavour_of_instance']
+        differ = json.dumps(_essence(pf), sort_keys=True) != json.dumps(_essence(inst), sort_keys=True)
+        ctx.count('dosini_instance:%s' % ('flavours_differ' if differ else 'flavours_serve_the_same'))
+        ctx.case(['inst', case['files'], case['vfiles'], case['given'], case['platform']], bool(both) and differ)
+        for label, d in (('package', pk), ('package flavour of the instance', pf), ('instance flavour of the instance', inst)):
+            if 'error' in d:
+                ctx.fail({'case': sc, 'load': label, 'error': d['error']}, 'loading a valid DOSINI directory raised', [])
+        # the package flavour of an instance directory is the package the instance was made of (same options)
+        for label, d in (('the package flavour of the instance directory', pf), ('the package, loaded again', dump['package_again'])):
+            if 'error' not in pk and 'error' not in d:
+                where = first_diff(_essence(pk), _essence(d))
+                if where:
+                    ctx.fail({'case': sc, 'where': where, 'package': _at(_essence(pk), where), 'other': _at(_essence(d), where)},
+                             '%s does not load like the package at %s' % (label, _generalise(where)), [])
+        # the instance flavour serves the user variables the instance was created with
+        if 'error' not in inst:
+            pseudo = {'vfiles': case['vfiles'], 'given': case['given']}
+            for cname, conf in inst['components'].items():
+                if not isinstance(conf, dict):
+                    continue
+                for name in NAMES:
+                    f1, v1 = last_def(pseudo, ('stages', str(conf['stage']), name))
+                    f2, v2 = last_def(pseudo, ('global', name))
+                    if (f1 or f2) and str(conf['variables'].get(name)) != str(v1 if f1 else v2):
+                        ctx.fail({'case': sc, 'component': cname, 'variable': name, 'got': conf['variables'].get(name),
+                                  'want': v1 if f1 else v2},
+                                 'the instance flavour of a DOSINI instance does not serve the last-wins user variable', [])
+                        break
 
 
 def _comp_of(case, node):
@@ -1879,7 +2024,11 @@ def explore(ctx, vars_cases, pkg_cases):
                          'C15: user variables of the loads of one process vs Det.Model.session (%s)' % sd[i]['how'])
     if pkg_cases:
         outs = run_processes(ctx, pkg_cases, 'pkg')
-        parsed = compare_processes(ctx, pkg_cases, outs)
+        parsed_all = compare_processes(ctx, pkg_cases, outs)
+        check_cfgs(ctx, [(c, d) for c, d in zip(pkg_cases, parsed_all) if c['kind'] == 'cfg'])
+        check_insts(ctx, [(c, d) for c, d in zip(pkg_cases, parsed_all) if c['kind'] == 'inst'])
+        parsed = [d for c, d in zip(pkg_cases, parsed_all) if c['kind'] == 'pkg']
+        pkg_cases = [c for c in pkg_cases if c['kind'] == 'pkg']
         ref_terms = []
         vcases, vparsed = expand_loads(pkg_cases, parsed)
         check_pkgs(ctx, vcases, vparsed, ref_terms)
@@ -1919,7 +2068,16 @@ def run(ctx):
                 'answer of the real can_template_replicate vs Det.Replicate.can_replicate, and the namespace as generated '
                 'and key-permuted must be accepted alike and compile to the same FlowIR (also asked of every s5 / naming '
                 'namespace); non-trivial = a step with several reference-holding args whose producers are of >= 2 kinds.  '
-                'dsl replicate pkg = such a namespace as a package on disk, loaded replicated in the 6 processes')
+                'dsl replicate pkg = such a namespace as a package on disk, loaded replicated in the 6 processes.  '
+                'cfg case = ONE configuration object of an in-memory FlowIRConcrete / DOSINI / FlowIR-file / DSL 2.0 '
+                'package answering 3-5 calls (0-5 variable files: none, subsets, reversed, same options again; platform '
+                'default / plat): process v constructs it with call v mod n and re-parametrizes it with the others, every '
+                'answer byte-identical to a fresh load in another process and equal to Det.Reparam.answers; non-trivial = '
+                '>= 2 different option sets.  inst case = DOSINI package instantiated by experimentFromPackage with user '
+                'variable files / platform, then package / package flavour of the instance / instance flavour loaded; '
+                'non-trivial = both flavours of a stage file present and the flavours serve different values.  Every child '
+                'process lists directories in its own order (file system, ascending, descending, rotated, even-odd, '
+                'odd-even reversed)')
     quick = ctx.tier == 'quick'
     vars_cases = [c for c in corpus_cases() if c['kind'] == 'vars']
     pkg_cases = [c for c in corpus_cases() if c['kind'] == 'pkg']
@@ -1941,6 +2099,16 @@ def run(ctx):
     # DSL 2.0 packages whose steps consume replicating, aggregating and plain components at once (replicated loads)
     for i in range(4 if quick else 30):
         pkg_cases.append(gen_dsl_replica_pkg(rng, sure=(i % 2 == 0)))
+    # ONE configuration object re-parametrized (every package kind), DOSINI instances with both flavours of stage files
+    for c in corpus_cases():
+        if c['kind'] in ('cfg', 'inst'):
+            pkg_cases.append(c)
+    for fmt, n in (('memory', 8 if quick else 60), ('dosini', 6 if quick else 40), ('flowir', 4 if quick else 30),
+                   ('dsl', 4 if quick else 24)):
+        for _ in range(n):
+            pkg_cases.append(R.gen_cfg_case(rng, fmt, gen_vars_case, gen_dsl_pkg))
+    for _ in range(6 if quick else 40):
+        pkg_cases.append(R.gen_inst_case(rng, gen_vars_case))
     import time
     for stage in (static_scan, lambda c: explore(c, vars_cases, pkg_cases), inprocess, s5_inprocess, s7_inprocess,
                   naming_inprocess, replicate_inprocess):
@@ -1948,7 +2116,10 @@ def run(ctx):
         stage(ctx)
         if os.environ.get('C15_TIMING'):
             print('C15 timing: %s %.1fs' % (getattr(stage, '__name__', 'explore'), time.time() - t0))
-    ctx.extra['processes'] = {'hash_seeds': SEEDS, 'document_variants': len(SEEDS)}
+    ctx.extra['processes'] = {'hash_seeds': SEEDS, 'document_variants': len(SEEDS),
+                              'directory_listing_orders': ['as listed by the file system', 'ascending', 'descending',
+                                                           'rotated', 'even entries then odd entries',
+                                                           'odd entries then even entries, reversed']}
 
 
 def replay(ctx, path):
@@ -1966,7 +2137,7 @@ def replay(ctx, path):
         for f in ctx.disagreements:
             print('DISAGREEMENT: %s' % (json.dumps(f, default=str)[:600],))
         return 1 if (ctx.failures or ctx.disagreements) else 0
-    if not isinstance(c, dict) or c.get('kind') not in ('vars', 'pkg'):
+    if not isinstance(c, dict) or c.get('kind') not in ('vars', 'pkg', 'cfg', 'inst'):
         if isinstance(c, dict) and 'old' in c and 'new' in c:
             import experiment.model.frontends.flowir as F
             print('override_object(%r, %r) = %r' % (c['old'], c['new'], F.FlowIR.override_object(copy.deepcopy(c['old']), copy.deepcopy(c['new']))))
